@@ -188,9 +188,22 @@ Definition dir_slots_of (sz : N) (d : disk) (i : N) : list (option (name * N)) :
 (* reply bytes ApplyEnts charges for an entry: 16 + len(name) + 8 + 8 *)
 Definition readdir_cost (e : name * N) : N := lenN (fst e) + 32.
 Definition model_page (slots : list (option (name * N))) (cookie count : N) :=
-  Paging.page (name * N) readdir_cost slots (N.to_nat (cookie / DIRENTSZ)) count.
+  Paging.page_readdir readdir_cost slots (N.to_nat (cookie / DIRENTSZ)) count.
+(* READDIRPLUS (dir.Apply): dirbytes is charged 8 + len(name), the reply estimate entryplus3Baggage + len(name) *)
+Definition ENTRYPLUS_BAGGAGE : N := 132.
+Definition rdplus_dcost (e : name * N) : N := lenN (fst e) + 8.
+Definition rdplus_pcost (e : name * N) : N := lenN (fst e) + ENTRYPLUS_BAGGAGE.
+Definition model_pageplus (slots : list (option (name * N))) (cookie dircount maxcount : N) :=
+  Paging.page_readdirplus rdplus_dcost rdplus_pcost slots (N.to_nat (cookie / DIRENTSZ)) dircount maxcount.
 Definition readdir_matches_model (sz : N) (d : disk) (i cookie count : N) (ents : list odirent) (eof : bool) : bool :=
   let '(es, meof, _) := model_page (dir_slots_of sz d i) cookie count in
+  Bool.eqb eof meof &&
+  (length ents =? length es)%nat &&
+  forallb (fun p => let '(e, (idx, (nm, inum))) := p in
+                    bytes_eqb (de_name e) nm && (de_fileid e =? inum) && (de_cookie e =? (N.of_nat idx + 1) * DIRENTSZ))
+          (combine ents es).
+Definition readdirplus_matches_model (sz : N) (d : disk) (i cookie dircount maxcount : N) (ents : list odirent) (eof : bool) : bool :=
+  let '(es, meof, _) := model_pageplus (dir_slots_of sz d i) cookie dircount maxcount in
   Bool.eqb eof meof &&
   (length ents =? length es)%nat &&
   forallb (fun p => let '(e, (idx, (nm, inum))) := p in
